@@ -801,7 +801,13 @@ func c14lane(c *Check, rng *rand.Rand, lane, steps int, hooks, mode string) {
 			// for a fraction of a tick, then the final one
 			saved := gen.cur
 			gen.cur = nt
-			nt2, kind2 := gen.mutate(c14nextKind(rng))
+			// (the second change is one that routing probes can see: if the proxy keeps the
+			// intermediate description, that shows)
+			k2 := c14nextKind(rng)
+			if rng.Intn(2) == 0 {
+				k2 = []string{"move-range", "shift-boundary", "failover"}[rng.Intn(3)]
+			}
+			nt2, kind2 := gen.mutate(k2)
 			// the proxy may or may not get to see the intermediate description: an address
 			// counts as newly discovered only if neither of the two previous ones had it
 			both := map[string]bool{}
@@ -814,10 +820,12 @@ func c14lane(c *Check, rng *rand.Rand, lane, steps int, hooks, mode string) {
 			if nref2 := c14interpret(nt2, both); nref2 != nil {
 				nt.Install(env.Cl)
 				if rng.Intn(3) > 0 {
-					// the reply carrying the intermediate description is written ~0.9 s late, so
-					// that it reaches the proxy together with the next probe's reply (the final
-					// description): two different usable descriptions within one table tick
-					env.Cl.DelayProbes(1, time.Duration(850+rng.Intn(120))*time.Millisecond)
+					// The proxy probes once per table tick, right after the tick has loaded what
+					// the previous probe brought. The reply carrying the intermediate description
+					// is written a little more than a tick late, the next probe's reply (final
+					// description) 0.4 s late: both reach the proxy, in this order, between the
+					// same two ticks - two different usable descriptions within one tick.
+					env.Cl.DelayProbes(time.Duration(1100+rng.Intn(100))*time.Millisecond, time.Duration(350+rng.Intn(100))*time.Millisecond)
 					for i := 0; i < 400 && env.Cl.ProbesServed() < 1; i++ {
 						time.Sleep(5 * time.Millisecond)
 					}
